@@ -4,7 +4,8 @@ from /repo's *current working tree* (`src/fortran/helpers.f90`, `curve_intersect
 from env BEZIER_REPO), are translated statement by statement into Lean definitions
 (lean/BezierVerif/Generated/SrcF90.lean, namespace `BezierVerif.Generated.SrcF90`).  The kernel then
 re-proves (lean/BezierVerif/Tables/SrcF90.lean, Tables/SrcF90Kernels.lean) that each generated definition equals the
-hand-written model definition (Model/Helpers.lean, Model/Solve2x2.lean, Model/Curve.lean, Model/Triangle.lean) on all inputs.  A semantic edit of the source changes the
+hand-written model definition (Model/Helpers.lean, Model/Solve2x2.lean, Model/Curve.lean, Model/Triangle.lean, Model/Newton.lean,
+Model/TriDeriv.lean) on all inputs (the third table file is Tables/SrcF90Pipeline.lean).  A semantic edit of the source changes the
 generated definition and breaks the theorem; an edit the translator does not understand removes the
 definition (and prints `EXTRACT-PROBLEM srcf90: <routine>: <what>`), which breaks the theorem as well.
 
@@ -80,6 +81,13 @@ NUMERIC KERNELS (curve.f90, triangle.f90; Tables/SrcF90Kernels.lean) - additiona
   `x ** n`      with the literals n = 2, 3, 4: the repeated product
   explicit shape an actual extent that is not textually the extent of the actual array: the callee sees the first `extent`
                 elements (`List.take`)
+  BLOCK SPLIT   an array whose first extent is `2 * <uniform extent>` (`new_nodes(2 * dimension_, n)` of jacobian_both) is the
+                two arrays `<name>_lo`, `<name>_hi` (rows `:d` and `d + 1:`), each carrying the uniform axis; a reference must
+                address one block, or the whole array in `a = expr(a)` (applied to both)
+  pipeline      (Tables/SrcF90Pipeline.lean) `matmul(a, b)` ↦ `matMul`, `matmul(a, v)` ↦ `matVec`, `transpose`; `-p`, `p = scalar`,
+                `array == scalar` under `all` / `any`; an output argument bound to an element / a column section
+                (`jacobian(:, 1:1)`, `func_val(3, 1)`) is an assignment of the result; `m(:, j) = p`, `m(:2, j:j) = p` on an
+                array with literal extents ↦ `setColPt`; `v(lo:hi) = p`, `v(lo:hi) - p` with a `v(2)` array `p`
   OPAQUE        `{"opaque": True}`: only the interface of the routine is read (declared limitation, no definition); its
                 callers take it as an explicit function argument `<name>_ext`
 
@@ -127,11 +135,15 @@ ROUTINES = [
     ("curve", "specialize_curve", {"reduce": ["dimension_"]}),
     ("curve", "newton_refine", {"unit": True}),
     ("curve", "get_curvature", {"unit": True}),
+    ("curve_intersection", "newton_simple_root", {"unit": True}),
+    ("curve_intersection", "newton_double_root", {"unit": True}),
     # triangle.f90
     ("triangle", "de_casteljau_one_round", {"reduce": ["dimension_"]}),
     ("triangle", "evaluate_barycentric_multi", {"reduce": ["dimension_", "num_vals"]}),
     ("triangle", "evaluate_barycentric", {"reduce": ["dimension_"], "unit": True}),
     ("triangle", "evaluate_cartesian_multi", {"reduce": ["dimension_", "num_vals"]}),
+    ("triangle", "compute_edge_nodes", {"reduce": ["dimension_"]}),
+    ("triangle", "jacobian_both", {"reduce": ["dimension_"]}),
 ]
 
 MODULES = ("helpers", "curve_intersection", "curve", "triangle")
@@ -150,7 +162,7 @@ LEAN_KEYWORDS = {"end", "at", "from", "do", "then", "else", "if", "fun", "let", 
                  "mutual", "opaque", "noncomputable", "true", "false", "undef", "norm2", "K", "Pt", "seq", "row",
                  "at2", "colPt", "minval", "maxval", "psub", "padd", "cross", "dot2", "dot", "absK", "minK", "maxK",
                  "subRow", "addRow", "q", "vecOfPt", "set2", "anyB", "allB", "colRange", "matAdd", "matSub", "matScale", "matAbs", "ofInt", "ncols", "scaleRow",
-                 "st", "r", "getP", "rowsOf", "secRow", "setSec", "mulRow", "acc", "setColRange", "pscale", "ptOf"}
+                 "st", "r", "getP", "rowsOf", "secRow", "setSec", "mulRow", "acc", "setColRange", "pscale", "ptOf", "pneg", "setColPt", "matVec", "matMul", "transpose"}
 LEAN_KEYWORDS |= {"j%d" % k for k in range(1, 40)}
 
 
@@ -991,8 +1003,9 @@ class Translator:
                     if v["intent"] == "in":
                         r.extent_dummies.setdefault(el, (low, axis, len(v["shape_txt"])))
                         r.extent_uses.setdefault(el, []).append((low, axis))
-                elif v["intent"] in (None, "out"):
-                    # a local (automatic) array or an output: any integer expression in extents / literals
+                elif v["intent"] in (None, "out") or opts.get("reduce") or opts.get("unit"):
+                    # a local (automatic) array or an output (kernel mode: also an input whose extent is an expression in
+                    # the extents of other inputs): any integer expression in extents / literals
                     shape.append(canon(parse_expr(ext)))
                 else:
                     raise Problem("extent %r of %s not supported (literal or dummy name only)" % (ext, v["name"]))
@@ -1060,6 +1073,25 @@ class Translator:
             if x not in r.vars or r.vars[x]["base"] != "int" or r.vars[x]["intent"] != "in" or r.vars[x]["shape_txt"]:
                 raise Problem("axis reduction: %s is not an integer intent(in) scalar dummy" % x)
         r.reduced, r.unit = red, unit
+        # BLOCK SPLIT: an array whose first extent is `2 * <uniform extent>` (jacobian_both: the rows of B_s followed by the
+        # rows of B_t) is two arrays `<name>_lo`, `<name>_hi` carrying the uniform axis; references must address one block
+        # (`a(:d, ..)` / `a(d + 1:, ..)`) or the whole array in an elementwise assignment `a = expr(a)`
+        split = {}
+        for low, v in list(r.vars.items()):
+            if v["shape_txt"] and canon(parse_expr(v["shape_txt"][0])) in ["(2*%s)" % x for x in red]:
+                d = canon(parse_expr(v["shape_txt"][0]))[3:-1]
+                split[low] = d
+                names = []
+                for suf in ("_lo", "_hi"):
+                    nv = dict(v)
+                    nv["name"] = v["name"] + suf
+                    nv["shape_txt"] = [d] + list(v["shape_txt"][1:])
+                    r.vars[low + suf] = nv
+                    names.append(v["name"] + suf)
+                del r.vars[low]
+                r.args = [x for a in r.args for x in (names if a.lower() == low else [a])]
+        if split:
+            stmts = self.split_blocks(r, stmts, split)
         for low, v in r.vars.items():
             exts = [e.strip().lower() for e in v["shape_txt"]]
             v["mask"] = [(e in red) or (unit and e == "1") for e in exts]
@@ -1086,6 +1118,60 @@ class Translator:
             if x in acc:
                 raise Problem("axis reduction: %s is used other than as the extent of a uniform axis" % r.vars[x]["name"])
             del r.vars[x]
+        return out
+
+    def split_blocks(self, r, stmts, split):
+        def sub(e, suf):
+            if isinstance(e, tuple):
+                if e and e[0] == "name" and e[1].lower() in split:
+                    return ("name", e[1] + suf)
+                return tuple(sub(x, suf) for x in e)
+            if isinstance(e, list):
+                return [sub(x, suf) for x in e]
+            return e
+
+        def has(e):
+            if isinstance(e, tuple):
+                if e and e[0] in ("name", "ref") and isinstance(e[1], str) and e[1].lower() in split:
+                    return True
+                return any(has(x) for x in e)
+            if isinstance(e, list):
+                return any(has(x) for x in e)
+            return False
+
+        def ref(e):
+            if isinstance(e, list):
+                return [ref(x) for x in e]
+            if not isinstance(e, tuple):
+                return e
+            if e and e[0] == "ref" and e[1].lower() in split:
+                d = split[e[1].lower()]
+                a0 = e[2][0]
+                if a0[0] == "slice" and len(a0) == 3 and a0[1] is None and a0[2] is not None and canon(a0[2]) == d:
+                    return ("ref", e[1] + "_lo", [("slice", None, None)] + [ref(x) for x in e[2][1:]])
+                if a0[0] == "slice" and len(a0) == 3 and a0[2] is None and a0[1] is not None and canon(a0[1]) == "(%s+1)" % d:
+                    return ("ref", e[1] + "_hi", [("slice", None, None)] + [ref(x) for x in e[2][1:]])
+                raise Problem("block split: reference to %s addresses neither `:%s` nor `%s + 1:`" % (e[1], d, d))
+            if e and e[0] == "name" and e[1].lower() in split:
+                raise Problem("block split: whole-array reference to %s outside an elementwise assignment" % e[1])
+            return tuple(ref(x) for x in e)
+
+        out = []
+        for st in stmts:
+            if st[0] == "assign" and st[1][0] == "name" and st[1][1].lower() in split:
+                for suf in ("_lo", "_hi"):
+                    out.append(("assign", sub(st[1], suf), sub(st[2], suf), st[3]))
+            elif st[0] == "assign":
+                out.append(("assign", ref(st[1]), ref(st[2]), st[3]))
+            elif st[0] == "if":
+                out.append(("if", [(ref(c), self.split_blocks(r, b, split)) for c, b in st[1]],
+                            None if st[2] is None else self.split_blocks(r, st[2], split), st[3]))
+            elif st[0] == "do":
+                out.append(("do", st[1], st[2], st[3], st[4], self.split_blocks(r, st[5], split), st[6]))
+            elif has(st):
+                raise Problem("block split: statement not supported: %r" % (st[-1],))
+            else:
+                out.append(st)
         return out
 
     def rw_ref(self, r, name, args, fv):
@@ -1737,6 +1823,38 @@ class Ctx:
         ty = v["ty"]
         if lhs[0] == "ref" and all(a == ("slice", None, None) for a in lhs[2]):
             lhs = ("name", name)
+        ispt = lambda t: t.base == "real" and t.kindshape() == ("pt",)        # noqa: E731
+        islist = lambda t: t.base == "real" and t.kindshape() == ("list",)    # noqa: E731
+        if lhs[0] == "name" and ispt(ty) and islist(val.ty):
+            val = V(ty, "ptOf %s" % val.at(P_APP), P_APP)          # a rank-1 value with two entries
+        if lhs[0] == "name" and ispt(ty) and (val.ty == REAL or val.ty == Ty("int")):
+            if val.ty != REAL:
+                val = self.int_to_real(val)
+            val = V(ty, "(%s, %s)" % (val.s, val.s), P_ATOM)       # `p = scalar`
+        if (lhs[0] == "ref" and ty.base == "real" and ty.kindshape() == ("mat",) and len(lhs[2]) == 2
+                and all(isinstance(x, int) for x in ty.shape)
+                and ((lhs[2][0] == ("slice", None, None) and ty.shape[0] == 2)
+                     or (lhs[2][0] == ("slice", None, ("num", Fr(2), False)) and ty.shape[0] >= 2))):
+            # m(:, j) = p  /  m(:, j:j) = p   on a 2 x n array with literal extents: one column
+            c = lhs[2][1]
+            j = None
+            try:
+                if c[0] == "slice" and len(c) == 3 and c[1] is not None and c[2] is not None:
+                    j1, j2 = self.const_index(c[1], st, text), self.const_index(c[2], st, text)
+                    j = j1 if j1 == j2 else None
+                elif c[0] != "slice":
+                    j = self.const_index(c, st, text)
+            except Problem:
+                j = None
+            if j is not None and (ispt(val.ty) or islist(val.ty)):
+                if j < 1 or j > ty.shape[1]:
+                    raise Problem("subscript out of bounds in %r" % text)
+                if islist(val.ty):
+                    val = V(Ty("real", (2,)), "ptOf %s" % val.at(P_APP), P_APP)
+                cur = self.read_var(low, st) if low in st.defined else self.undef_of(ty, "column assignment to %s" % name)
+                st2 = st.copy()
+                st2.assigned(low)
+                return ("let", v["lean"], "setColPt %s %d %s" % (cur.at(P_APP), j - 1, val.at(P_APP)), rest(st2))
         if lhs[0] == "name" and ty == Ty("int"):
             if val.ty != Ty("int") or val.z is None:
                 raise Problem("assignment %r: type %s where an integer is expected" % (text, val.ty))
@@ -1858,6 +1976,8 @@ class Ctx:
                 if val.ty != REAL:
                     val = self.int_to_real(val)
                 val = V(ty, "List.replicate (%s + 1 - %s) %s" % (hi_v.at(P_ADD), lo_v.at(P_ADD), val.at(P_APP)), P_APP)
+            if val.ty.base == "real" and val.ty.kindshape() == ("pt",):
+                val = self.as_list(val)
             if not (val.ty.base == "real" and val.ty.kindshape() == ("list",)):
                 raise Problem("assignment %r: type %s where a rank-1 array is expected" % (text, val.ty))
             new = "setSec %s %s %s %s" % (cur.at(P_APP), lo_v.at(P_APP), hi_v.at(P_APP), val.at(P_APP))
@@ -2043,6 +2163,10 @@ class Ctx:
             return self.call_lifted(cal, actuals, lifts, st, rest, text)
         ins, outs = self.bind_actuals(cal, actuals, st, text)
         app = self.apply(cal, ins)
+        if len(outs) == 1 and outs[0][1][0] == "ref" and outs[0][1][1].lower() in self.r.vars and (self.r.reduced or self.r.unit):
+            # a single output bound to an element / section: an assignment of the result
+            d, a = outs[0]
+            return self.assign(("assign", a, ("val", V(cal.vars[d]["ty"], app, P_APP)), text), st, rest)
         # outputs must be whole variables of this routine
         targets = []
         for d, a in outs:
@@ -2085,8 +2209,8 @@ class Ctx:
         if len(outs) != 1 or lift not in cal.vars[outs[0][0]].get("orig_exts", []):
             raise Problem("call mapped over an axis needs exactly one output, carrying that axis: %r" % text)
         d, a = outs[0]
-        if a[0] != "name" or a[1].lower() not in self.r.vars:
-            raise Problem("output argument of a mapped call is not a whole variable in %r" % text)
+        if a[0] not in ("name", "ref") or a[1].lower() not in self.r.vars:
+            raise Problem("output argument of a mapped call is not a variable / section in %r" % text)
         low = a[1].lower()
         v = self.r.vars[low]
         if v["intent"] == "in" or low in self.r.extent_dummies or low in st.loops:
@@ -2100,13 +2224,7 @@ class Ctx:
         else:
             raise Problem("call mapped over an axis with %d array inputs: %r" % (len(mapped), text))
         want = self.lifted_ty(cal.vars[d]["ty"])
-        if v["ty"].base == "real" and v["ty"].kindshape() == ("pt",) and want.kindshape() == ("list",):
-            txt = "ptOf (%s)" % txt
-        elif not (v["ty"].base == "real" and v["ty"].kindshape() == want.kindshape()):
-            raise Problem("output argument %s of the mapped call: type %s in %r" % (v["name"], v["ty"], text))
-        st2 = st.copy()
-        st2.assigned(low)
-        return ("let", v["lean"], txt, rest(st2))
+        return self.assign(("assign", a, ("val", V(want, txt, P_APP)), text), st, rest)
 
     def apply(self, cal, ins):
         if cal.opaque:
@@ -2205,9 +2323,11 @@ class Ctx:
 
     def expr(self, e, st):
         k = e[0]
+        if k == "val":
+            return e[1]
         if k == "paren":
             return self.expr(e[1], st)
-        if k != "num" and self.is_int_ast(e, st):
+        if k not in ("num", "val") and self.is_int_ast(e, st):
             return self.int_any(e, st)
         if k == "num":
             if e[2]:
@@ -2229,6 +2349,8 @@ class Ctx:
             if e[1] == "not":
                 self.need_bool(x, ".NOT.")
                 return mk_bool(("not", x.logic))
+            if x.ty.base == "real" and x.ty.kindshape() == ("pt",):
+                return V(x.ty, "pneg %s" % x.at(P_APP), P_APP)
             if x.ty != REAL:
                 raise Problem("unary minus on %s" % x.ty)
             return V(REAL, "-" + x.at(P_NEG), P_NEG)
@@ -2287,6 +2409,10 @@ class Ctx:
                 al, bl = self.as_list(a), self.as_list(b)
                 s, _ = render_prop(("rel", op, V(REAL, "a"), V(REAL, "b")))
                 return V(Ty("bool", a.ty.shape), "List.zipWith (fun a b => decide (%s)) %s %s" % (s, al.at(P_APP), bl.at(P_APP)), P_APP)
+            if a.ty.base == "real" and a.ty.kindshape() in (("list",), ("pt",)) and b.ty == REAL:
+                al = self.as_list(a)
+                sx, _ = render_prop(("rel", op, V(REAL, "a"), b))
+                return V(Ty("bool", a.ty.shape), "List.map (fun a => decide (%s)) %s" % (sx, al.at(P_APP)), P_APP)
             if a.ty.base.startswith("enum:") or a.ty.base in ("int", "bool"):
                 raise Problem("comparison of %s values not supported" % a.ty)
             raise Problem("comparison of %s with %s" % (a.ty, b.ty))
@@ -2296,6 +2422,9 @@ class Ctx:
                 a = self.int_to_real(a)
             elif b.ty == INT and b.z is not None:
                 b = self.int_to_real(b)
+        if op in ("+", "-") and a.ty.base == "real" and b.ty.base == "real" and \
+                {a.ty.kindshape(), b.ty.kindshape()} == {("list",), ("pt",)}:
+            a, b = self.as_list(a), self.as_list(b)
         if op in ("+", "-"):
             if a.ty == REAL and b.ty == REAL:
                 return V(REAL, "%s %s %s" % (a.at(P_ADD - 1), op, b.at(P_ADD)), P_ADD)
@@ -2436,6 +2565,19 @@ class Ctx:
                     return V(REAL, "%s %s" % (low, m.at(P_APP)), P_APP)
             raise Problem("%s: only (matrix, 2) and (rank-1 list) are supported" % name)
         vals = [self.expr(a, st) for a in args]
+        ismat = lambda x: x.ty.base == "real" and x.ty.kindshape() == ("mat",)      # noqa: E731
+        if low == "transpose":
+            if len(vals) == 1 and ismat(vals[0]):
+                sh = vals[0].ty.shape
+                return V(Ty("real", (sh[1], sh[0])), "transpose %s" % vals[0].at(P_APP), P_APP)
+            raise Problem("transpose of this argument not supported")
+        if low == "matmul":
+            if len(vals) == 2 and ismat(vals[0]) and ismat(vals[1]):
+                return V(Ty("real", (vals[0].ty.shape[0], vals[1].ty.shape[1])),
+                         "matMul %s %s" % (vals[0].at(P_APP), vals[1].at(P_APP)), P_APP)
+            if len(vals) == 2 and ismat(vals[0]) and vals[1].ty.base == "real" and vals[1].ty.kindshape() == ("list",):
+                return V(Ty("real", ("(matvec)",)), "matVec %s %s" % (vals[0].at(P_APP), vals[1].at(P_APP)), P_APP)
+            raise Problem("matmul of these arguments not supported")
         if low == "abs":
             if len(vals) == 1 and vals[0].ty == REAL:
                 return V(REAL, "absK %s" % vals[0].at(P_APP), P_APP)
@@ -2561,6 +2703,15 @@ def mulRow (a b : List K) : List K := List.zipWith (· * ·) a b
 /-- `m(:, lo:hi) = w` on every row -/
 def setColRange (m : List (List K)) (lo hi : Nat) (w : List (List K)) : List (List K) :=
   List.zipWith (fun r x => setSec r lo hi x) m w
+
+/-- `matmul(m, v)` with a rank-1 `v` -/
+def matVec (m : List (List K)) (v : List K) : List K := m.map (fun r => dot r v)
+
+/-- `-p` on a `v(2)` array -/
+def pneg (p : Pt K) : Pt K := (-p.1, -p.2)
+
+/-- `m(:, j+1) = p` on an array with two rows -/
+def setColPt (m : List (List K)) (j : Nat) (p : Pt K) : List (List K) := set2 (set2 m 0 j p.1) 1 j p.2
 
 /-- `p * c` on a `v(2)` array -/
 def pscale (p : Pt K) (c : K) : Pt K := (p.1 * c, p.2 * c)
